@@ -26,8 +26,13 @@ Notes
   one name), C14 (playback of harnesses that live in a nested module), C11 (tables are fetched through the real
   dispatcher, not from `unicodetables` directly), C13 (`C13n`: unoptimised programs keep `Insn::Char` for
   non-Latin1 literals; validation mismatches are decided on the real code), C09 (SMT mode C09: the table engine
-  cannot see state leaking between the matches of one iterator), C12 (Annex B `\\d-a-z` shapes), C18/C17/C20
-  (harnesses made feasible at all: String capacity model, index-positions build, per-N bounds).
+  cannot see state leaking between the matches of one iterator; the SMT verdict is kept when a change to a private
+  struct makes the harness crate uncompilable), C12 (Annex B `\\d-a-z` shapes), C04 (optional groups that begin with
+  `^`), C03 (loops over multi-character literal groups), C06 (SMT mode C06: real entry points on solver witnesses
+  must return valid char-boundary ranges; `\\q{..}` members under `iv`), C15 (`c10_backref_icase_fwd` joined C15's
+  quick tier under index_safe), C18/C17/C20 (harnesses made feasible at all: String capacity model,
+  index-positions build, per-N bounds).  Every "not caught" line that is followed by a "caught" line for the same
+  check records the state before the strengthening.
 * C07, C08 and C19 are not claimed (MANIFEST not_applicable); their seeds are kept to document what the
   machinery does NOT see: C08 (parser pre-scan of nested brackets) and C19 (a per-bracket memo behind an atomic)
   are invisible to every check; C07 (AsciiBitmap::set(128)) is reported by the C12/C06 kernel
